@@ -16,11 +16,17 @@ class Case:
         self.name, self.code, self.mask, self.opsize = name, code, mask, opsize
         self.mem = kw.get("mem", False)
         self.idx = kw.get("idx")             # SIB index register (or None)
+        self.setregs = kw.get("setregs")     # register values the memory operand needs (SIB sweep), or None
         self.kw = kw
+
+
+FORCED = None        # when set: function (rng, opsize, reg) -> (rex bits, modrm+sib+disp bytes, info) used instead of a random operand
 
 
 def modrm(rng, opsize, reg=None, allow_mem=True, rex_w=False, force66=False):
     """returns (prefix bytes without REX, rex bits dict, modrm+sib+disp bytes, info)"""
+    if FORCED is not None:
+        return FORCED(rng, opsize, reg)
     info = {"mem": False, "idx": None}
     rexr = rexx = rexb = 0
     use_rex_regs = rng.random() < 0.35
@@ -39,8 +45,8 @@ def modrm(rng, opsize, reg=None, allow_mem=True, rex_w=False, force66=False):
             if rng.random() < 0.4:
                 rexb = 1                     # r11 r14 r15
             index = rng.choice([1, 2, 4])    # rcx, rdx, none
-            if index != 4 and rng.random() < 0.4:
-                rexx = 1                     # r9 r10
+            if rng.random() < 0.4:
+                rexx = 1                     # r9 r10, and r12 for index field 100 (only without REX.X does 100 mean "no index")
             scale = rng.randrange(4)
             info["idx"] = None if index == 4 and not rexx else (index + 8 * rexx)
             if index == 4 and rexx:
@@ -81,8 +87,6 @@ def bad_regs(info, opsize, rex_present, reg_is_operand=True):
     for r in regs:
         if r == 4 and (opsize != 8 or rex_present):
             return True
-    if info.get("idx") == 12:
-        return True
     return False
 
 
@@ -96,7 +100,9 @@ def build(rng, opc, opsize, reg=None, allow_mem=True, imm=0, reg_is_operand=True
         if bad_regs(info, opsize, rex_present, reg_is_operand):
             continue
         pre = b""
-        if info["mem"] and rng.random() < 0.1:
+        if info.get("a67") is not None:
+            pre += b"\x67" if info["a67"] else b""
+        elif info["mem"] and rng.random() < 0.1:
             pre += b"\x67"
         if opsize == 16:
             pre += b"\x66"
@@ -110,9 +116,10 @@ def build(rng, opc, opsize, reg=None, allow_mem=True, imm=0, reg_is_operand=True
     return None
 
 
-def gen_case(rng):
+def gen_case(rng, k=None):
+    """k (0..1) selects the instruction class; random when None"""
     opsize = rng.choice([8, 16, 32, 32, 64, 64])
-    k = rng.random()
+    k = rng.random() if k is None else k
     w = 0 if opsize == 8 else 1
     if k < 0.22:
         # ALU r/m,r  and r,r/m
@@ -243,3 +250,125 @@ def jcc_case(rng):
         return cc, bytes([0x70 | cc, d]), (d - 256 if d > 127 else d)
     d = rng.getrandbits(32)
     return cc, bytes([0x0F, 0x80 | cc]) + d.to_bytes(4, "little"), (d - (1 << 32) if d >> 31 else d)
+
+
+# ------------------------------------------------------------------------------------------------ SIB sweep
+# Memory operands with a SIB byte, systematically: every REX.X / REX.B combination x every index field (including 100b,
+# which is "no index" without REX.X and r12 with it) x every scale x mod 00/01/10 x every base field (including 101b: no
+# base + disp32 under mod 00, rbp / r13 otherwise; 100b with REX.B: r12), with and without a 67 address-size prefix, for
+# LEA, loads, stores and read-modify-write instructions.  The register values are chosen per case so that
+#   - the index register holds a non-zero value (small, negative, boundary or random 64-bit) different from every other
+#     register, so that dropping / mis-scaling / mis-selecting it changes the effective address;
+#   - the base register (or the disp32 of the base-less form) compensates, modulo 2^64 (2^32 under 67), so that the
+#     effective address falls inside the window of the scratch buffer that the harness fills, maps and compares;
+#   - under a 67 prefix the upper halves of the address registers hold garbage that must be ignored.
+# Base rsp is not generated (the native runner keeps the real stack pointer).
+EA_LO, EA_HI = -56, 79          # effective address relative to ABS_SCRATCH: accesses of up to 8 bytes stay inside the window
+SWEEP_CLASSES = [0.10, 0.10, 0.30, 0.37, 0.43, 0.48, 0.55, 0.55, 0.60, 0.65, 0.65, 0.65, 0.70, 0.78, 0.82, 0.86, 0.90, 0.97]
+
+
+def index_value(rng):
+    return rng.choice([1, 2, 3, 5, 7, 8, 0x10, 0x11, 0x7F, 0x80, 0xFFFF, 0x7FFFFFFF, 0x80000000, 0xFFFFFFFF, 1 << 32, (1 << 63) - 1, 1 << 63,
+                       (1 << 64) - 1, (1 << 64) - 2, (1 << 64) - 8, rng.randrange(1, 32), rng.randrange(1, 32), rng.getrandbits(64) | 1,
+                       rng.getrandbits(64) | 2, rng.getrandbits(32) | 1])
+
+
+def sib_operand(rng, X, B, idxf, basef, mod, scale, a67):
+    """operand provider for build(): ModRM/SIB/disp bytes of the given form and the register values it needs; None if the
+    form is not generated (base rsp)"""
+    breg = None if (mod == 0 and basef == 5) else basef + 8 * B
+    ireg = idxf + 8 * X
+    if ireg == 4:
+        ireg = None                  # index field 100 without REX.X: no index
+    if breg == 4 or not ABS_SCRATCH:
+        return None
+    A = 32 if a67 else 64
+    MA = (1 << A) - 1
+    k = 1 << scale
+
+    def wide(v):
+        # value of an address register: under 67 only the low half matters, the upper half is garbage
+        v &= MA
+        if a67 and rng.random() < 0.75:
+            v |= rng.getrandbits(32) << 32
+        return v
+
+    def provider(rng, opsize, reg):
+        T = ABS_SCRATCH + rng.randrange(EA_LO, EA_HI + 1)
+        setregs = {}
+        if mod == 1:
+            d = rng.choice([0, 1, 8, 0x10, 0x1F, 0x7F, 0x80, 0xF8, 0xF0, 0xE0, 0xFF, rng.randrange(256)])
+            disp = d.to_bytes(1, "little")
+            d = d - 256 if d > 127 else d
+        elif mod == 2:
+            d = rng.choice([0, 1, 16, 0x1F, 0x7FFFFFFF, 0x80000000, 0xFFFFFFF0, 0xFFFFFFE0, 0xFFFFFFFF, rng.getrandbits(32), rng.getrandbits(32)])
+            disp = d.to_bytes(4, "little")
+            d = d - (1 << 32) if d >> 31 else d
+        else:
+            d, disp = 0, b""
+        if breg is None:
+            # index*scale + disp32 (sign-extended)
+            if ireg is None:
+                d = T
+            elif a67:
+                iv = index_value(rng)
+                setregs[ireg] = wide(iv)
+                d = (T - iv * k) & 0xFFFFFFFF
+            else:
+                iv = rng.choice([1, 2, 3, 7, 0x11, rng.randrange(1, 64), rng.randrange(1, 1 << 26), -1, -2, -8, -rng.randrange(1, 1 << 26)])
+                if not -(1 << 31) <= T - iv * k < (1 << 31):
+                    iv = rng.randrange(1, 16)           # the sign-extended disp32 must give back T - iv*k
+                setregs[ireg] = iv & MA
+                d = (T - iv * k) & 0xFFFFFFFF
+            disp = d.to_bytes(4, "little")
+        elif ireg is None:
+            setregs[breg] = wide(T - d)
+        elif ireg == breg:
+            # one register as base and index: r*(1+scale) + disp
+            if k == 1:
+                if (T - d) & 1:
+                    T += 1
+                r = ((T - d) & MA) >> 1
+                if rng.random() < 0.5:
+                    r |= 1 << (A - 1)                  # carried out of the address
+            else:
+                r = ((T - d) * pow(1 + k, -1, 1 << A)) & MA
+            setregs[breg] = wide(r)
+        else:
+            iv = index_value(rng)
+            setregs[ireg] = wide(iv) if rng.random() < 0.5 else iv
+            setregs[breg] = wide(T - d - iv * k)
+        rexr = 0
+        if reg is None:
+            reg = rng.randrange(8)
+            rexr = rng.randrange(2)
+        out = bytes([(mod << 6) | ((reg & 7) << 3) | 4, (scale << 6) | (idxf << 3) | basef]) + disp
+        info = {"mem": True, "idx": None, "reg": (reg & 7) + 8 * rexr, "setregs": setregs, "a67": a67,
+                "sib": {"x": X, "b": B, "index": idxf, "base": basef, "mod": mod, "scale": scale, "index_reg": ireg, "base_reg": breg}}
+        return {"r": rexr, "x": X, "b": B}, out, info
+    return provider
+
+
+def sib_sweep(rng, reps):
+    """yields Cases: reps x every (REX.X, REX.B, index field, scale, mod), with random base field / 67 prefix / instruction"""
+    global FORCED
+    for rep in range(reps):
+        for X in (0, 1):
+            for B in (0, 1):
+                for idxf in range(8):
+                    for scale in range(4):
+                        for mod in (0, 1, 2):
+                            for attempt in range(8):
+                                basef = rng.randrange(8)
+                                a67 = rng.random() < 0.3
+                                prov = sib_operand(rng, X, B, idxf, basef, mod, scale, a67)
+                                if prov is None:
+                                    continue
+                                FORCED = prov
+                                try:
+                                    c = gen_case(rng, rng.choice(SWEEP_CLASSES))
+                                finally:
+                                    FORCED = None
+                                if c is not None and c.setregs is not None:
+                                    yield c
+                                    break
